@@ -85,6 +85,12 @@ pub fn run(prop: &'static str, tier: &str, seed: u64) -> i32 {
     let results = run_cases(batches as usize, par.min(workers()), move |b| run_worker(&mode_s, seed, b as u64 * per_worker, per_worker));
     let mut classes = std::collections::BTreeSet::new();
     let mut results = results;
+    if prop == "C03" {
+        // a follower that stalls past the broadcast and delivery buffers: while its stream stays open it must not skip frames
+        let n_slow = if t { 48u64 } else { 8 };
+        let slow: Vec<Vec<Value>> = run_cases(((n_slow + 3) / 4) as usize, 4, move |b| run_worker("c11slow", seed ^ 0x510, b as u64 * 4, 4));
+        results.extend(slow);
+    }
     if prop == "C02" {
         // the same property through the HTTP front end (parallel connections, NDJSON and SSE pollers)
         let n_http = if t { 40 } else { 6 };
@@ -164,6 +170,7 @@ pub fn run(prop: &'static str, tier: &str, seed: u64) -> i32 {
         rep.require("http rounds", rep.counters.get("http_rounds").copied().unwrap_or(0) > 0);
     }
     if prop == "C03" {
+        rep.require("a stalled follower lagged past the buffers", rep.counters.get("slow_rounds_that_lagged").copied().unwrap_or(0) > 0);
         rep.require("appends overlapped the read() call", rep.counters.get("window_hits").copied().unwrap_or(0) > 0);
     }
     if prop == "C11" {
